@@ -166,6 +166,7 @@ static int is_simple_key(int opidx)
 /* stream bound for the current start configuration */
 static int cur_bound(void)
 {
+    if (W.nkey > 1) return g_bs + 2;            /* re-keyed before data: which key is in force shows in the first blocks */
     if (W.ntweak > 0 && g_c != CK_MANTIS) return g_bs + 2;
     if (W.ntweak > 1) return g_bs + 2;
     if (W.seg2 || W.exotic) return g_bound2;
@@ -181,9 +182,15 @@ static int w_enabled(int opi)
         return W.phase == PH_UNINIT;
     case T_KEY: case T_TKEY:
         if (!live) return 0;
-        if (g_only_key >= 0 && opi != g_keyop_first + g_only_key) return 0;
+        if (W.nkey == 0) { if (g_only_key >= 0 && opi != g_keyop_first + g_only_key) return 0; }
+        else {
+            /* a second key operation may be of another kind or size: the same one, the first plain key, the first
+             * tweaked key, or the last (longest) key operation of the alphabet */
+            if (!(opi == g_keyop_first + g_only_key || opi == g_keyop_first || opi == g_first_tkey || opi == g_keyop_first + g_nkeyops - 1)) return 0;
+        }
         if (W.exotic && !is_simple_key(opi)) return 0;
         if (W.consumed == 0 && W.nkey == 0 && !W.seg2) return 1;
+        if (g_mode == MODE_C05 && W.consumed == 0 && W.nkey == 1 && W.nctr == 0 && W.ntweak == 0 && !W.seg2 && !W.exotic) return 1;   /* re-key before any data */
         if (g_mode == MODE_C06 && W.consumed > 0 && W.nreconf < 1 && !W.seg2) return 1;
         if (g_mode == MODE_C14 && W.nkey < 2 && W.consumed == 0) return 1;
         return 0;
@@ -215,7 +222,7 @@ static int w_enabled(int opi)
         if (g_mode == MODE_C14) return W.consumed < g_bs + 2 && (o->a == 1 || o->a == g_bs) && o->b == 0;
         if (W.nreconf) return W.nafter < (tier_thorough() ? 2 : 1) && (o->a == 1 || o->a == g_bs || o->a == g_maxbatch + 1) && o->b == 0;
         if (g_mode == MODE_C06) return (W.nenc < 1 || (W.nenc < 2 && W.consumed <= g_bs + 1)) && o->b == 0;   /* the defined regime itself is C05's business */
-        if (W.ntweak > 0 && cur_bound() == g_bs + 2 && !(o->a == 1 || o->a == g_bs || o->a == g_bs + 1)) return 0;
+        if (cur_bound() == g_bs + 2 && !(o->a == 1 || o->a == g_bs || o->a == g_bs + 1)) return 0;
         if (W.consumed >= g_bs + 2 && W.consumed + o->a > cur_bound() + g_maxbatch) return 0;   /* long pieces only from early states */
         return W.consumed < cur_bound();
     case T_CLEANUP:
